@@ -2,7 +2,8 @@
 //! replaces (timestamps strictly increasing per key) on a `Tree` with versioning, with or without
 //! the B+tree version index; `get_at` and `history` with every option, forward and backward, before
 //! and after flush / reopen (and compaction, whose known losses are covered by the exhaustive
-//! per-key stream: after a compaction the case is counted, not judged).
+//! per-key stream: after a compaction the case is counted, not judged).  `crashflush <point>`: the
+//! store is replaced by the crash image taken at that file-operation boundary of a flush.
 use crate::rng::Rng;
 use crate::util::*;
 use crate::Args;
@@ -76,8 +77,15 @@ pub fn gen(a: &Args) -> i32 {
                 writeln!(out, "hist {lo} {hi} {tombs} {ra} {rb} {limit} {dir}").unwrap();
                 st.bump(&format!("hist_{dir}{}{}", if ra != "-" { "_range" } else { "" }, if limit != "-" { "_limit" } else { "" }));
             } else if x < 92 {
-                writeln!(out, "flush").unwrap();
-                st.bump("flush");
+                if r.chance(1, 3) {
+                    // a crash inside the flush: the store continues from the image taken at that file-operation boundary
+                    let point = *r.pick(&["flush.sst_written", "flush.index_written", "flush.manifest_written", "flush.done"]);
+                    writeln!(out, "crashflush {point}").unwrap();
+                    st.bump(&format!("crash_{point}"));
+                } else {
+                    writeln!(out, "flush").unwrap();
+                    st.bump("flush");
+                }
             } else if x < 96 {
                 writeln!(out, "reopen").unwrap();
                 st.bump("reopen");
@@ -249,6 +257,44 @@ pub fn exec(a: &Args) -> i32 {
                     match vs::rotate(t).and_then(|_| vs::flush_immutables(t)) {
                         Ok(()) => "ok".into(),
                         Err(e) => format!("err:{}", e.replace(' ', "_")),
+                    }
+                }
+                Some("crashflush") => {
+                    let Some(t) = tree.take() else { return "bad-op".into() };
+                    let point = w[1].to_string();
+                    let img = tempfile::tempdir().expect("tempdir");
+                    let taken = std::sync::Arc::new(std::sync::Mutex::new(false));
+                    {
+                        let (src, dst, taken) = (dir.path().to_path_buf(), img.path().to_path_buf(), std::sync::Arc::clone(&taken));
+                        surrealkv::verif::set_yield_handler(Some(std::sync::Arc::new(move |name: &'static str| {
+                            if name == point {
+                                let mut g = taken.lock().unwrap();
+                                if !*g {
+                                    crate::crash::copy_dir(&src, &dst);
+                                    *g = true;
+                                }
+                            }
+                        })));
+                    }
+                    let fl = vs::rotate(&t).and_then(|_| vs::flush_immutables(&t));
+                    surrealkv::verif::set_yield_handler(None);
+                    let was_taken = *taken.lock().unwrap();
+                    if !was_taken {
+                        // nothing to flush (empty memtable): the store simply continues
+                        tree = Some(t);
+                        return match fl {
+                            Ok(()) => "ok".into(),
+                            Err(e) => format!("err:{}", e.replace(' ', "_")),
+                        };
+                    }
+                    let _ = rt.block_on(t.close());
+                    dir = img;
+                    match TreeBuilder::with_options(mk(dir.path(), index, auto_compact, &mut clk)).build() {
+                        Ok(t) => {
+                            tree = Some(t);
+                            "ok".into()
+                        }
+                        Err(e) => en(&e),
                     }
                 }
                 Some("compact") => {
